@@ -44,6 +44,7 @@ EXPECTED_FAULTS = {p: ["clock_jump", "boundary", "backstep", "skew", "tick"] for
 EXPECTED_FAULTS["C06"] = ["boundary", "backstep", "skew"]  # every C06 request places the clock
 DETERMINISM_SAMPLE = {"quick": 4, "thorough": 6}
 EXHAUSTIVE = {}
+MIN_CASES = {'quick': 300, 'thorough': 3500}
 
 
 def expected(lib, form, ts, latent):
@@ -170,7 +171,8 @@ def execute(case):
     lib = core.use_repo()
     prop = case["prop"]
     mod = lib["ctparse"]
-    wall = VirtualWall(parse_ts(case["start"]), case.get("read_advance_us", 0))
+    wall = VirtualWall(parse_ts(case["start"]), case.get("read_advance_us", 0),
+                       case.get("utc_offset_s", 0))
     V, keys, obs = [], [], []
     faults = {"clock_jump": 0, "boundary": 0, "backstep": 0, "skew": 0, "tick": 0}
     probes = {"omitted_ts_requests": 0, "explicit_ts_requests": 0, "streams_across_clock_events": 0,
@@ -432,7 +434,9 @@ def _session(prop, rng, n_req):
     clients = [0] + [rng.choice([0, 3, -3, 86400, -86400 * 40, 86400 * 366, 59, -1])
                      for _ in range(n_clients - 1)]
     case = {"prop": prop, "start": fmt_ts(start), "clients": clients,
-            "read_advance_us": rng.choice([0, 0, 1, 1000, 61_000_000]), "events": []}
+            "read_advance_us": rng.choice([0, 0, 1, 1000, 61_000_000]), "events": [],
+            # the simulated machine is rarely in UTC
+            "utc_offset_s": rng.choice([0, 3600, 7200, -18000, 19800, 43200])}
     evs = case["events"]
     t = start          # planner's own idea of the host clock (kept in step with the events)
     fs = _forms_for(prop, rng, n_req)
@@ -571,3 +575,5 @@ def shrink_moves(case):
         yield dict(case, read_advance_us=0)
     if any(case["clients"]):
         yield dict(case, clients=[0] * len(case["clients"]))
+    if case.get("utc_offset_s") not in (None, 7200):
+        yield dict(case, utc_offset_s=7200)
